@@ -622,7 +622,7 @@ def gen_window(env, p_none=0.6):
     if rng.random() < p_none:
         return None, None
     span = env.U1 - env.U0
-    mode = rng.choice(["inside", "straddle_start", "straddle_end", "start_only", "end_only", "before", "after"])
+    mode = rng.choice(["inside", "straddle_start", "straddle_end", "start_only", "end_only", "before", "after", "far_future"])
     q = lambda f: env.U0 + H6 * int((span * f) / H6)
     if mode == "inside":
         s, e = q(rng.uniform(0.05, 0.4)), q(rng.uniform(0.5, 0.95))
@@ -634,6 +634,13 @@ def gen_window(env, p_none=0.6):
         s, e = q(rng.uniform(0.1, 0.6)), None
     elif mode == "end_only":
         s, e = None, q(rng.uniform(0.4, 0.9))
+    elif mode == "far_future":
+        # "never ends": an end date beyond what nanosecond timestamps can hold
+        s, e = rng.choice([None, q(rng.uniform(0.1, 0.5))]), pd.Timestamp("2999-12-31")
+        k = env.window_kind
+        return (None if s is None else env.tag_date(s.normalize() if k == "date" else s, kind=k)), \
+            ({"$t": "date", "v": "2999-12-31"} if k == "date" else
+             {"$t": ("datetime" if k == "datetime" else "ts"), "v": "2999-12-31T00:00:00", "tz": None})
     elif mode == "before":
         s, e = env.U0 - 8 * H6, env.U0 - 4 * H6
     else:
@@ -1063,9 +1070,14 @@ def clone_asset(env, aid):
         return None
     kw = copy.deepcopy(src["kw"])
     kw["name"] = asset_name(env)
-    what = rng.choice(["wacc", "wacc", "wacc", "price", "extra_costs", "window", "nothing"])
+    what = rng.choice(["wacc", "wacc", "wacc", "wacc_eps", "price", "extra_costs", "window", "nothing"])
     if what == "wacc":
         kw["wacc"] = rng.choice([w for w in (0, 0.05, 0.1, 0.2) if w != kw.get("wacc", 0)])
+    elif what == "wacc_eps":
+        # almost, but not quite, the same discount rate (anything compared with a tolerance will confuse the two)
+        base = kw.get("wacc", 0) or 0.05
+        src["kw"]["wacc"] = base
+        kw["wacc"] = base * (1 + 4e-6)
     elif what == "price" and "price" in kw:
         kw["price"] = rng.choice([k for k in PRICE_KEYS if k != kw["price"]])
     elif what == "extra_costs" and src["cls"] in ("SimpleContract", "Contract", "MultiCommodityContract"):
